@@ -31,7 +31,7 @@ Definition plain_int_text (z : Z) (t : str) : bool :=
     && negb (match ds with [] => true | _ => false end)
     && forallb is_digit ds
     && (digs_val ds 0 =? Z.abs z)
-    && (match ds with 48 :: _ :: _ => false | _ => true end)   (* no leading zeros *)
+    && (match ds with c :: _ :: _ => negb (c =? ch_0) | _ => true end)   (* no leading zeros *)
   | [] => false
   end.
 
